@@ -104,10 +104,11 @@ type c07Case struct {
 	bigRoute bool
 	schedule []int
 	failKey  string // "db/key": the target answers this key's RESTORE with an error
+	failMsg  string
 }
 
 func (c *c07Case) String() string {
-	return fmt.Sprintf("mode=%s parallel=%d target.db=%d key_exists=%s bigRoute=%v filters=%+v records=%d dbs=%d existing=%d failKey=%q", c.mode, c.parallel, c.targetDB, c.policy, c.bigRoute, c.filt, len(c.file.Records), c.file.NDBs, len(c.existing), c.failKey)
+	return fmt.Sprintf("mode=%s parallel=%d target.db=%d key_exists=%s bigRoute=%v filters=%+v records=%d dbs=%d existing=%d failKey=%q failMsg=%q", c.mode, c.parallel, c.targetDB, c.policy, c.bigRoute, c.filt, len(c.file.Records), c.file.NDBs, len(c.existing), c.failKey, c.failMsg)
 }
 
 func drawC07(t *rapid.T) *c07Case {
@@ -137,6 +138,9 @@ func drawC07(t *rapid.T) *c07Case {
 		}
 		if len(cands) > 0 {
 			c.failKey = rapid.SampledFrom(cands).Draw(t, "failKey")
+			c.failMsg = rapid.SampledFrom([]string{"ERR injected failure", "BUSY Redis is busy running a script. You can only call SCRIPT KILL or SHUTDOWN NOSAVE.",
+				"LOADING Redis is loading the dataset in memory", "OOM command not allowed when used memory > 'maxmemory'.", "READONLY You can't write against a read only replica.",
+				"MISCONF Redis is configured to save RDB snapshots, but it is currently not able to persist on disk."}).Draw(t, "failMsg")
 		}
 	}
 	c.schedule = rapid.SliceOfN(rapid.IntRange(0, 7), 1, 24).Draw(t, "schedule")
@@ -200,7 +204,11 @@ func c07Check(t fataler, c *c07Case) {
 	if c.failKey != "" {
 		srv.Hook = func(cs *mredis.ConnState, argv [][]byte) *mredis.Reply {
 			if strings.EqualFold(string(argv[0]), "restore") && fmt.Sprintf("%d/%s", cs.DB, argv[1]) == c.failKey {
-				r := mredis.Err("ERR injected failure")
+				msg := c.failMsg
+				if msg == "" {
+					msg = "ERR injected failure"
+				}
+				r := mredis.Err(msg)
 				return &r
 			}
 			return nil
@@ -214,15 +222,36 @@ func c07Check(t fataler, c *c07Case) {
 	var serr error
 	reader := bufio.NewReaderSize(bytes.NewReader(c.file.Bytes), 4096)
 	var res logcap.Result
+	var done <-chan logcap.Result
+	gidCh := make(chan int64, 1)
 	if c.mode == "sync" {
 		ds := newSyncer(0)
-		res = logcap.RunTree(func() {
+		done = logcap.Start(func() {
+			gidCh <- logcap.Gid()
 			serr = ds.VerifSyncRDBFile(reader, []string{srv.Addr()}, "auth", tgtSentinel, int64(len(c.file.Bytes)), false)
 		})
 	} else {
-		res = logcap.Run(func() {
+		done = logcap.Start(func() {
+			gidCh <- logcap.Gid()
 			run.VerifRestoreRDBFile(0, reader, []string{srv.Addr()}, "auth", tgtSentinel, int64(len(c.file.Bytes)), false)
 		})
+	}
+	gid := <-gidCh
+	select {
+	case res = <-done:
+	case <-time.After(30 * time.Second):
+		// the model target answers at once and the gate releases every command: a run that is still going
+		// after 30 s is not going to return (e.g. it retries the same command for ever)
+		nlog := len(srv.LogCopy())
+		srv.Close()
+		violation(t, "C07", "no-return:"+c.mode, "%s: the run did not return within 30 s (the target has received %d commands so far)", desc, nlog)
+		return
+	}
+	if c.mode == "sync" {
+		if ab := logcap.Cap.TakeAbortsOf(func(a logcap.Abort) bool { return a.Parent == gid }); len(ab) > 0 && res.Completed {
+			res.Completed, res.Aborted, res.AbortMsg = false, true, ab[0].Msg
+		}
+	} else {
 		// restore-mode workers are grandchildren of the harness goroutine: collect their aborts by message
 		if ab := logcap.Cap.TakeAbortsOf(func(a logcap.Abort) bool {
 			return strings.Contains(a.Msg, "restore") || strings.Contains(a.Msg, "flush command") || strings.Contains(a.Msg, "routine[") || strings.Contains(a.Msg, "parse rdb")
